@@ -89,6 +89,7 @@ int streamWrapper(void *ptr, const MPT_STRUCT(message) *msg)
 			    || ret > (int) sizeof(ans->id)) {
 				mpt_log(0, _func, MPT_LOG(Error), "%s: %s",
 				        MPT_tr("dispatch failed"), MPT_tr("reply id invalid"));
+				return MPT_ERROR(BadValue);
 			}
 			/* find reply handler */
 			if (!(ans = mpt_command_get(&con->_wait, mid))) {
